@@ -38,12 +38,39 @@ def random_uani(rng, cell):
 
 
 def make_atoms(structure, spec, symmulti):
+    """atom_entry objects as a user holds them: positions and U_ij as list / tuple / float array / integer array
+    (integral coordinates), chosen per atom from its own numbers"""
     out = []
-    for a in spec:
-        out.append(structure.atom_entry(label=a["label"], atomtype=a["el"], pos=list(a["pos"]), adp_type=a["adp_type"],
-                                        adp=(list(a["adp"]) if isinstance(a["adp"], list) else a["adp"]), occ=a["occ"],
-                                        symmulti=a.get("multi", symmulti)))
+    for n, a in enumerate(spec):
+        k = int(abs(a["pos"][0]) * 1e6) + n
+        pos = gen.as_form(a["pos"], k)
+        adp = gen.as_form(a["adp"], k + 1) if isinstance(a["adp"], list) else a["adp"]
+        out.append(structure.atom_entry(label=a["label"], atomtype=a["el"], pos=pos, adp_type=a["adp_type"],
+                                        adp=adp, occ=a["occ"], symmulti=a.get("multi", symmulti)))
     return out
+
+
+_ATOMS = {}
+
+
+def F(ctx, h, cell, name, spec, symmulti, disper=None):
+    """StructureFactor on atom objects that are built once per spec and then *reused* for every reflection of the case
+    (as a user does); afterwards the objects must still hold the numbers they were built from"""
+    key = id(spec)
+    ent = _ATOMS.get(key)
+    if ent is None or ent[0] is not spec:
+        _ATOMS.clear()
+        atoms = make_atoms(ctx.S, spec, symmulti)
+        ent = _ATOMS[key] = (spec, atoms)
+    atoms = ent[1]
+    r = ctx.S.StructureFactor(np.asarray(h), cell, name, atoms, disper)
+    for a, at in zip(spec, atoms):
+        same = bool(np.array_equal(np.asarray(at.pos, float), np.asarray(a["pos"], float)))
+        if a["adp_type"] in ("Uiso", "Uani"):
+            same = same and bool(np.array_equal(np.asarray(at.adp, float), np.asarray(a["adp"], float)))
+        ctx.mon.check("pure:structure.StructureFactor leaves the atom list as it was", same,
+                      observed=None if same else {"pos": at.pos, "adp": at.adp}, expected=None if same else {"pos": a["pos"], "adp": a["adp"]})
+    return complex(r[0], r[1])
 
 
 def scale_of(atomlib, spec, symmulti, disper):
@@ -104,12 +131,6 @@ def gen_spec(rng, cell, kind, natoms=None):
         spec.append({"label": "%s%d" % (el, i + 1), "el": el, "pos": pos, "adp_type": adp_type, "adp": adp,
                      "occ": float(rng.uniform(0.05, 1.0))})
     return spec
-
-
-def F(ctx, h, cell, name, spec, symmulti, disper=None):
-    atoms = make_atoms(ctx.S, spec, symmulti)
-    r = ctx.S.StructureFactor(np.asarray(h), cell, name, atoms, disper)
-    return complex(r[0], r[1])
 
 
 def case_covariance(ctx, p):
